@@ -455,7 +455,7 @@ pub fn ribbon(r: &mut Rng, n: usize, out: &mut Vec<String>) {
                 let v = match r.below(5) {
                     0 => boundary,
                     1 => 1.0,
-                    2 => f32::from_bits(b(boundary) + 1),
+                    2 => f32::from_bits(b(boundary).wrapping_add(1)),
                     3 => f32::from_bits(any_f32_bits(r)),
                     _ => boundary + (1.0 - boundary) * r.unit() as f32,
                 };
